@@ -61,6 +61,7 @@ func lessShape(fn *ssa.Function) (field, op string, why string) {
 	}
 	// collect returns; the primary comparison is the one returned on the path where the keys differ
 	var cmp *ssa.BinOp
+	var all []*ssa.BinOp
 	for _, in := range instrsOf(fn) {
 		ret, ok := in.(*ssa.Return)
 		if !ok {
@@ -71,9 +72,22 @@ func lessShape(fn *ssa.Function) (field, op string, why string) {
 			return "", "", "comparator returns " + describeVal(ret.Results[0]) + ", not a single comparison"
 		}
 		cmp = b // the last return in block order is the primary key in `if tie {...}; return primary`
+		all = append(all, b)
 	}
 	if cmp == nil {
 		return "", "", "no comparison returned"
+	}
+	// several returns on the same field in opposite strict directions, selected by a captured flag: the direction
+	// is not decided here ("*"), strictness and key are
+	if len(all) == 2 {
+		f0, _ := elemField(all[0].X)
+		f1, _ := elemField(all[1].X)
+		strict := func(b *ssa.BinOp) bool { return b.Op == token.LSS || b.Op == token.GTR }
+		if f0 != "" && f0 == f1 && strict(all[0]) && strict(all[1]) && all[0].Op != all[1].Op {
+			if g0, _ := elemField(all[0].Y); g0 == f0 {
+				return f0, "*", ""
+			}
+		}
 	}
 	fx, ix := elemField(cmp.X)
 	fy, iy := elemField(cmp.Y)
@@ -137,8 +151,8 @@ func checkC03(p *Program, r *Result) {
 		"(C03.d) in reverse order the newly indexed segment is reversed before the stable sort; " +
 		"(C03.e) after loading a chunk control returns to the head of the yield loop (the load trigger is re-evaluated) before any message is yielded."
 	r.NotDecided = []string{"that the two-queue merge yields every selected message exactly once in order for every overlap pattern (run-time)"}
-	r.rule("C03.a", "pending-message queue is sorted with a stable API", 2)
-	r.rule("C03.b", "comparators are strict single-key comparisons with the direction of the read order", 2)
+	r.rule("C03.a", "pending-message queue is sorted with a stable API", 1)
+	r.rule("C03.b", "comparators are strict single-key comparisons with the direction of the read order", 1)
 	r.rule("C03.c", "chunk-order key == load-trigger key, same direction", 2)
 	r.rule("C03.d", "reverse order: new segment reversed before the stable sort", 1)
 	r.rule("C03.e", "load trigger re-evaluated after every chunk load", 1)
@@ -211,28 +225,78 @@ func checkC03(p *Program, r *Result) {
 				r.violated("C03.b", fname, construct, pos, why)
 			case f != "timestamp":
 				r.violated("C03.b", fname, construct, pos, "sorts by field "+f+", not by the message timestamp")
-			case want != "" && op != want:
+			case want != "" && op != want && op != "*":
 				r.violated("C03.b", fname, construct, pos, "comparator direction is "+op+" but the read order requires "+want)
-			case want == "":
+			case want == "" && op != "*":
 				r.undecided("C03.b", fname, construct, pos, "sort is not under a test of it.order")
 			default:
 				r.held("C03.b", fname, construct, pos, "element[i].timestamp "+op+" element[j].timestamp")
 			}
-			// d: reverse order
-			if order == 2 {
+			// d: reverse order (also when one sort serves both time orders)
+			if order == 2 || order == -1 {
 				ok := false
 				for _, rc := range reverseCalls {
-					if instrDominates(rc, ci) && orderConstOf(rc) == 2 {
+					if orderConstOf(rc) == 2 && (instrDominates(rc, ci) || reachableFromSuccs(rc.Block())[ci.Block()]) {
 						ok = true
 					}
 				}
 				if ok {
-					r.held("C03.d", fname, "reverse of the new segment before the reverse-order sort", pos, "slices.Reverse on the queue dominates the stable sort")
+					r.held("C03.d", fname, "reverse of the new segment before the reverse-order sort", pos, "slices.Reverse on the queue (under the reverse-order test) precedes the stable sort")
 				} else {
 					r.violated("C03.d", fname, "reverse of the new segment before the reverse-order sort", pos,
 						"in reverse order, messages of one chunk with equal log time must come out in reverse file order; the newly indexed segment is not reversed before the stable sort")
 				}
 			}
+		}
+	}
+	// ---- f: the slice handed to the sort is the queue as it is at that moment: no store to it.messageIndexes or
+	// it.curMessageIndex lies between taking the window and sorting it
+	r.rule("C03.f", "the sorted window is the current pending queue (not taken before the queue was compacted)", 1)
+	for _, ci := range callsIn(lc, func(ci ssa.CallInstruction) bool {
+		n := staticCalleeName(ci.Common())
+		if f := ci.Common().StaticCallee(); f != nil && f.Origin() != nil {
+			n = staticCalleeName2(f.Origin())
+		}
+		return stableSorts[n] || unstableSorts[n]
+	}) {
+		arg := ci.Common().Args[0]
+		if mi, ok := arg.(*ssa.MakeInterface); ok {
+			arg = mi.X
+		}
+		var winInstr ssa.Instruction
+		if sl, ok := arg.(*ssa.Slice); ok {
+			winInstr = sl
+		} else if u, ok := arg.(*ssa.UnOp); ok && u.Op == token.MUL {
+			// the window variable is captured by the comparator closure: a heap cell; take the store that fills it
+			if al, ok := u.X.(*ssa.Alloc); ok {
+				for _, ref := range *al.Referrers() {
+					if st, ok := ref.(*ssa.Store); ok && st.Addr == ssa.Value(al) {
+						if _, isSlice := st.Val.(*ssa.Slice); isSlice && instrDominates(st, ci) {
+							winInstr = st
+						}
+					}
+				}
+			}
+		}
+		if winInstr == nil {
+			continue
+		}
+		win := winInstr
+		stale := ""
+		for _, f := range []string{"messageIndexes", "curMessageIndex"} {
+			for _, st := range fieldStores(lc, "indexedMessageIterator", f) {
+				afterWin := st.Block() == win.Block() && blockIndexOf(st) > blockIndexOf(win) || st.Block() != win.Block() && reachableFromSuccs(win.Block())[st.Block()]
+				beforeSort := st.Block() == ci.Block() && blockIndexOf(st) < blockIndexOf(ci) || st.Block() != ci.Block() && reachableFromSuccs(st.Block())[ci.Block()]
+				if afterWin && beforeSort && instrDominates(win, st) {
+					stale = "it." + f + " is modified at " + p.pos(st.Pos())
+				}
+			}
+		}
+		if stale == "" {
+			r.held("C03.f", funcName(lc), "sorted window is current", p.pos(ci.Pos()), "no update of the queue between taking the window and sorting it")
+		} else {
+			r.violated("C03.f", funcName(lc), "sorted window is current", p.pos(ci.Pos()),
+				"the window of pending messages is taken, then the queue is compacted ("+stale+"), then the old window is sorted: the live entries stay unsorted and messages come out in the wrong time order")
 		}
 	}
 	// ---- c: chunk sort keys (parseSummarySection) vs trigger (NextInto)
